@@ -32,6 +32,31 @@ CHECKS = {
    "Array lengths 0..4 (thorough 0..7) x all (start,stop,step) in ({absent} U [-L-3,L+3])^3 plus +-2^31/+-2^63 boundary crossings, via [a:b:c], x[a:b:c], a typed []string twin, non-array subjects and 20-digit numerals; compared with a transcription of PySlice_AdjustIndices; panics are violations.",
    "Trusted: model.SliceIndices. Magnitudes beyond the window are represented by the boundary set only.",
    "DESIGN.md section 5 C08"),
+ "C09": ("M", "model_checking",
+   "exhaustive well-typed argument-tuple enumeration per built-in against reference function definitions",
+   "For each of the 26 built-ins every well-typed argument tuple of a typed value universe (numbers, 12 strings incl. multi-byte, all arrays up to length 4 (thorough 5) over 4 numbers / 4 strings with duplicates and all orders, {k,t}-object arrays with tied keys, colliding objects, heterogeneous arrays), standalone and in 10 contexts, is evaluated by the reference definitions and replayed against Search; to_string judged by decode-back, to_number per gap G5 over all strings of <=3 symbols from a numeric alphabet.",
+   "Trusted: the function table in model/eval.go. Bounded value universe; unordered results compared through outcome sets.",
+   "DESIGN.md section 5 C09"),
+ "C10": ("M", "model_checking",
+   "exhaustive function x arity x argument-type matrix enumeration against the reference signature table",
+   "28 names x arities 0..3 x all argument tuples over 13 argument kinds (11 JSON values + 2 expression references) as literals and through document fields, arity 4 over a 6-kind subset, and by-expression functions over all arrays of length 0..3 (thorough 4) of 10 element kinds: every call the reference signature table rejects must be an error (never a value or a panic), every accepted call must give the reference value.",
+   "Trusted: signature table in model/eval.go. Gap G11 (expression reference in a position typed any) gives no verdict.",
+   "DESIGN.md section 5 C10"),
+ "C11": ("M", "model_checking",
+   "exhaustive one-hole context enumeration around erroring sub-expressions, reference evaluator decides reachability",
+   "Six erroring sub-expressions (invalid type, unknown function, invalid arity, zero step, mixed array, inconsistent by-expression keys) in every context up to structural weight 5 (thorough 6) over all constructs x 30 documents that make the hole evaluated or unevaluated; whenever the reference evaluator reaches the error (under every admissible member order) Search must return an error.",
+   "Trusted: evaluation-order/short-circuit semantics of model/eval.go.",
+   "DESIGN.md section 5 C11"),
+ "C15": ("M", "model_checking",
+   "exhaustive pair / context enumeration with a differential oracle on the implementation (no reference values)",
+   "All pairs (A,B) of mixed-fragment sentences up to weight 3 x documents: Search('A | B', d) must equal Search(B, Search(A, d)) and err iff a step errs; all contexts up to weight 4 whose hole is root-evaluated x hole expressions x documents: Search(C[E], d) must equal Search(C[literal of Search(E,d)], d).",
+   "The reference evaluator only classifies order-dependent cases (skipped, counted) and non-trivial ones. Bounded universes.",
+   "DESIGN.md section 5 C15"),
+ "C16": ("M", "model_checking",
+   "bounded exhaustive (expression x document) enumeration with a JSON-closure invariant on every successful result",
+   "The C01/C02/C07 universes plus every built-in with every argument shape (fields, literals, expression references in declared positions) up to weight 5 x 101 documents incl. all empty containers: every successful result is type-walked (no NaN/Inf, no internal object, no nil slice/map, no foreign Go type) and round-tripped through encoding/json.",
+   "Domain restriction (expression references only in declared positions) decided by the reference evaluator. Bounded universes.",
+   "DESIGN.md section 5 C16"),
 }
 
 NOT_YET = {}
